@@ -189,6 +189,28 @@ def refusal_conditions(src, case):
     return conds
 
 
+def first_diff(a, b_, path="env"):
+    if type(a) != type(b_):
+        return path
+    if isinstance(a, dict):
+        for k in sorted(set(a) | set(b_)):
+            if k not in a or k not in b_:
+                return path + "." + k
+            r = first_diff(a[k], b_[k], path + "." + k)
+            if r:
+                return r
+        return None
+    if isinstance(a, list):
+        if len(a) != len(b_):
+            return path + "[len %d -> %d]" % (len(a), len(b_))
+        for i, (x, y) in enumerate(zip(a, b_)):
+            r = first_diff(x, y, "%s[%d]" % (path, i))
+            if r:
+                return r
+        return None
+    return None if a == b_ else path
+
+
 def ext_of(d, p, o):
     """extensions of the preceding reference; a requested key an addon normaliser moved to the document level
     (es-verifactu-doc-type -> tax.ext, addons/es/verifactu normalizeInvoice) is read back from there"""
@@ -286,7 +308,16 @@ def wdef(c):
     return [c["schema"], c["types"], c["extensions"], c["reason_required"], c["stamps"], c["copy_tax"]]
 
 
-def model_case(src, case, ob, replicate=False):
+def head_stamps_copied():
+    """which variant of the model the tree is compared with: Correct/Correct.v `copy_head` is false for the code as it stands and
+    true once fixes/C16-copy-header-stamps.diff is applied, i.e. once the finding has been moved from `known` to `fixed`"""
+    fs = load_findings()
+    if any(f.get("id") == FINDING_DATA_STAMPS for f in fs["known"]):
+        return False
+    return any(f.get("id") == FINDING_DATA_STAMPS or FINDING_DATA_STAMPS in json.dumps(f) for f in fs["fixed"])
+
+
+def model_case(src, case, ob, replicate=False, copied=False):
     prep = case["prep"]
     heap, hs_addrs = [], []
     for i, s in enumerate(prep.get("head_stamps") or []):
@@ -345,9 +376,9 @@ def model_case(src, case, ob, replicate=False):
                               wopt(None if "stamps" not in o else [[wopt(s.get("prv")), wopt(s.get("val"))] for s in o["stamps"]]),
                               wopt(o.get("reason")), wopt(None if "ext" not in o else [[k, v] for k, v in o["ext"].items()]),
                               wopt(None if "copy_tax" not in o else bool(o["copy_tax"]))]]]
-    return "c16 correct %s %s %s %s %s %s %s %s" % (
+    return "c16 correct %s %s %s %s %s %s %s %s %d" % (
         w(wopt(None if src.rdefs is None else [wdef(c) for c in src.rdefs])), w([[wdef(c) for c in a] for a in src.adefs]),
-        w(today), w(uh), w(ud), w(ol), w([heap, 1000]), w(envv))
+        w(today), w(uh), w(ud), w(ol), w([heap, 1000]), w(envv), 1 if copied else 0)
 
 
 def b(x):
@@ -508,7 +539,9 @@ def run(c):
     outs = run_go(lines, shards=16)
     log("library run", round(time.time() - T0, 1))
     obs = [Obs(l) for l in outs]
-    mlines = [model_case(byname[k["source"]], k, o) if not o.err else None for k, o in zip(cases, obs)]
+    copied = head_stamps_copied()
+    c.cov["model_variant"] = "copy_head=%s (%s)" % (copied, "after fixes/C16-copy-header-stamps.diff" if copied else "the code as it stands")
+    mlines = [model_case(byname[k["source"]], k, o, copied=copied) if not o.err else None for k, o in zip(cases, obs)]
     # replicate: every source, unsigned / signed / with header stamps
     rcases = []
     for s in srcs:
@@ -551,8 +584,9 @@ def run(c):
                 only_stamps = o.b0 is not None and o.b1 is not None and \
                     {kk: v for kk, v in o.b0.items() if kk != "head"} == {kk: v for kk, v in o.b1.items() if kk != "head"} and \
                     {kk: v for kk, v in o.b0["head"].items() if kk != "stamps"} == {kk: v for kk, v in o.b1["head"].items() if kk != "stamps"}
-                what = "the source envelope is changed by %s: header stamps before %r, after %r" % (
-                    "Replicate" if replicate else "Correct", (o.b0 or {}).get("head", {}).get("stamps"), (o.b1 or {}).get("head", {}).get("stamps"))
+                what = "the source envelope is changed by %s (first difference at %s): header stamps before %r, after %r" % (
+                    "Replicate" if replicate else "Correct", first_diff(o.b0, o.b1),
+                    (o.b0 or {}).get("head", {}).get("stamps"), (o.b1 or {}).get("head", {}).get("stamps"))
                 rp = dict(replay, clause="correcting or replicating never changes the source envelope, document, header or signatures",
                           source_before=o.b0, source_after=o.b1)
                 if data_stamps and only_stamps and c.known(FINDING_DATA_STAMPS):
